@@ -64,6 +64,8 @@ struct Ctl {
     graph: Option<GraphDump>,
     seam_log: Vec<SeamCall>,
     script: Vec<SeamScript>,
+    /// calls without a script entry get the canonical (sorted) order instead of the incoming one
+    canonical: bool,
     state_machine: Option<bool>,
 }
 
@@ -115,10 +117,17 @@ pub fn take_graph() -> Option<GraphDump> {
 
 /// Reset the seam log and install a script (empty = leave every order as it comes).
 pub fn seam_reset(script: Vec<SeamScript>) {
+    seam_reset_with(script, false)
+}
+
+/// Like [`seam_reset`]; with `canonical` every call that has no script entry is put into the
+/// canonical (sorted) order, so that a run does not depend on the real hash seeds at all.
+pub fn seam_reset_with(script: Vec<SeamScript>, canonical: bool) {
     CTL.with(|c| {
         let mut c = c.borrow_mut();
         c.seam_log.clear();
         c.script = script;
+        c.canonical = canonical;
     });
 }
 
@@ -146,10 +155,15 @@ pub(crate) fn permute<T: std::fmt::Debug>(site: &'static str, v: &mut [T]) {
             .filter(|s| s.site == site && s.fingerprint == fingerprint)
             .count();
         c.seam_log.push(SeamCall { site, len: v.len(), fingerprint, occurrence });
-        c.script
+        let scripted = c
+            .script
             .iter()
             .find(|s| s.site == site && s.fingerprint == fingerprint && s.occurrence == occurrence && s.perm.len() == v.len())
-            .map(|s| s.perm.iter().map(|&p| canon[p]).collect::<Vec<usize>>())
+            .map(|s| s.perm.iter().map(|&p| canon[p]).collect::<Vec<usize>>());
+        match scripted {
+            None if c.canonical => Some(canon.clone()),
+            other => other,
+        }
     });
     if let Some(order) = order {
         // new[i] = old[order[i]], in place, by cycles
